@@ -101,6 +101,17 @@ def check_C19(tier):
         files = {p: "DATA %s\n" % p for s in eq.values() for p in s}
         allitems = [os.path.basename(x) for s in eq.values() for x in s]
         jobs.append(("selector", dict(op="selector", streams=eq, drop=[x for x in allitems if rng.random() < 0.3]), files, dict(kind="combine", lens=[ln] * np_, np=np_), 1))
+    # long streams through the selector with a consumer that is slower than the producers (the component buffers tuples internally)
+    for np_, ln, pace in ((2, 40, 3), (3, 60, 2)) + (((2, 150, 1),) if thorough else ()):
+        eq = {names[i]: ["in/%s%d.txt" % (names[i], k) for k in range(1, ln + 1)] for i in range(np_)}
+        files = {p: "DATA %s\n" % p for s_ in eq.values() for p in s_}
+        drop = [os.path.basename(eq[names[0]][k]) for k in range(4, ln, 5)]
+        jobs.append(("selector", dict(op="selector", streams=eq, drop=drop, pace_ms=pace), files, dict(kind="combine", lens=[ln] * np_, np=np_), 2))
+    # several files through one FileSplitter in the same run (every file is split on its own)
+    for sizes, n in (((2, 4, 7, 0), 3), ((5, 5), 2), ((1, 6, 3), 3)):
+        fl = ["in/f%d.txt" % k for k in range(len(sizes))]
+        files = {fl[k]: "".join("f%d line %d\n" % (k, i) for i in range(1, sizes[k] + 1)) for k in range(len(sizes))}
+        jobs.append(("splitmany", dict(op="splitmany", files=fl, n=n), files, dict(kind="splitmany", sizes=list(sizes), n=n), 2))
     def one(j):
         kind, case, files, c, buf = j
         return j, run_comp(case, files, bufsize=buf)
@@ -130,6 +141,24 @@ def check_C19(tier):
             if got != want or res["result"].get("extra"):
                 chk.violation("IPSelectorSync forwarded %s, expected exactly the aligned tuples whose members all satisfy the predicate: %s" % (got[:4], want[:4]), replay)
             if n >= 2: chk.nontrivial.add("selector:%s:%s" % (c["lens"], sorted(drop)))
+        elif kind == "splitmany":
+            contents = [res["dir_files"].get(t.get("in")) for t in tuples]
+            pos = 0
+            for k, size in enumerate(c["sizes"]):
+                nparts = size // c["n"] + 1        # the loop opens a new part after every n-th line: one (possibly empty) part at the end
+                mine = contents[pos:pos + nparts]; pos += nparts
+                whole = case["files"][k]
+                if any(x is None for x in mine) or "".join(mine) != files[whole]:
+                    chk.violation("FileSplitter (several files in one run): the parts of file %d (%d lines, %d per part) do not concatenate back to it: part sizes %s"
+                                  % (k, size, c["n"], [len((x or "").splitlines()) for x in mine]), replay); break
+                if any(len(x.splitlines()) > c["n"] for x in mine):
+                    chk.violation("FileSplitter (several files in one run): a part of file %d (%d lines) is longer than the limit of %d lines: %s"
+                                  % (k, size, c["n"], [len(x.splitlines()) for x in mine]), replay); break
+            else:
+                if pos != len(contents):
+                    chk.violation("FileSplitter (several files in one run) emitted %d parts, expected %d" % (len(contents), pos), replay)
+                else:
+                    chk.nontrivial.add("splitmany:%s:%d" % (c["sizes"], c["n"]))
         elif kind == "split":
             parts = [t["in"] for t in tuples]
             contents = [res["dir_files"].get(p) for p in parts]
